@@ -717,13 +717,24 @@ func (db *DB) doFollowLeaders(stream string, tables []*table, offsets []common.O
 		for _, source := range sources {
 			earliestOffsetsBySource[source] = nil
 		}
+		// a table that has no offset yet for a source needs that source's stream
+		// from the beginning, whatever the other tables have already persisted
+		fromBeginning := make(map[int]bool)
 		for _, os := range offsets {
+			for _, source := range sources {
+				if os[source] == nil {
+					fromBeginning[source] = true
+				}
+			}
 			for source, offset := range os {
 				earliestOffset := earliestOffsetsBySource[source]
 				if earliestOffset == nil || earliestOffset.After(offset) {
 					earliestOffsetsBySource[source] = offset
 				}
 			}
+		}
+		for source := range fromBeginning {
+			earliestOffsetsBySource[source] = nil
 		}
 		offsetsMx.RUnlock()
 
